@@ -1,27 +1,108 @@
 package tmstate
 
+// C08: the round state machine follows the Tendermint round rules, forwards only.
+// Oracles R1-R7 (zz_vh_smchecks.go) after the real start-up path and after every event.
+
 import (
 	"github.com/gordian-engine/gordian/internal/verifrt"
 )
 
-func vhOpts() {
-	verifrt.Summarize("ByzantineThresholds")
-	verifrt.Summarize("SMQuietSendGuardTimers")
-}
-
-// VH_C08_Smoke: real start-up, one view update.
-func VH_C08_Smoke() {
+// VH_C08_StartAny: the real start-up path answered by a mirror view with arbitrary
+// numbers and 0-2 headers (or by a committed header: catch-up), then one event of any kind.
+func VH_C08_StartAny() {
 	vhOpts()
 	e := vhNewSM(true)
+	e.allowCatchup = true
+	e.entrancePHs = 2
 	if !e.start() {
 		return
 	}
-	verifrt.Reach("started")
+	e.check(chkC08)
 	e.observeState("after-start")
-	if !e.deliver(evView) {
+	verifrt.Reach("C08-start:started")
+	e.run(chkC08, vhEvents(), 1)
+	if e.seen&vhSeenReplaying != 0 {
+		verifrt.Reach("C08-start:replaying-a-committed-header")
+	}
+	if e.seen&vhSeenNextRound != 0 {
+		verifrt.Reach("C08-start:entered-next-round")
+	}
+	if e.seen&vhSeenAwaitingFinalization != 0 {
+		verifrt.Reach("C08-start:awaiting-finalization")
+	}
+	if e.seen&vhSeenPrecommitDelay != 0 {
+		verifrt.Reach("C08-start:precommit-delay")
+	}
+	e.finish()
+}
+
+// VH_C08_Seq: height 1 round 0 entered with no votes yet (0/1 header), then 3 (quick) /
+// 4 (thorough) events of any kind; later entrances are answered with empty views.
+func VH_C08_Seq() {
+	vhOpts()
+	e := vhNewSM(true)
+	e.symEntrances = 0
+	if !e.start() {
 		return
 	}
-	verifrt.Reach("one-view")
-	e.observeState("after-view")
+	e.check(chkC08)
+	n := 3
+	if verifrt.Thorough() {
+		n = 4
+	}
+	e.run(chkC08, vhEvents(), n)
+	if e.seen&vhSeenNextHeight != 0 {
+		verifrt.Reach("C08-seq:entered-next-height")
+	}
+	if e.seen&vhSeenNextRound != 0 {
+		verifrt.Reach("C08-seq:entered-next-round")
+	}
+	if e.seen&vhSeenPrevoteDelay != 0 {
+		verifrt.Reach("C08-seq:prevote-delay")
+	}
+	if e.seen&vhSeenVoteReleased != 0 {
+		verifrt.Reach("C08-seq:vote-released")
+	}
+	if e.seen&vhSeenProposalReleased != 0 {
+		verifrt.Reach("C08-seq:proposal-released")
+	}
+	e.finish()
+}
+
+// VH_C08_Follower: the local key is not in the validator set: same rules, no votes.
+func VH_C08_Follower() {
+	vhOpts()
+	e := vhNewSM(false)
+	e.symEntrances = 0
+	if !e.start() {
+		return
+	}
+	e.check(chkC08)
+	e.run(chkC08, vhEvents(), 2)
+	verifrt.Assert(len(e.signs) == 0 && len(e.emits) == 0, "R7:follower-signs-and-releases-nothing")
+	verifrt.Reach("C08-follower:done")
+	e.finish()
+}
+
+// VH_C08_DecideAsap holds only the "as soon as" half of R5 (a separate harness so that
+// its findings do not mask the rest): once the latest view of the round shows a
+// single-target prevote quorum (R5a), the prevote delay has elapsed (R5b) or precommits
+// of at least a third of the power are seen (R5c), and the round is still being voted,
+// the strategy has been asked for the precommit.
+func VH_C08_DecideAsap() {
+	vhOpts()
+	e := vhNewSM(true)
+	n := 2
+	if verifrt.Choose("arbitrary-start", 2) == 1 {
+		n = 1
+	} else {
+		e.symEntrances = 0
+	}
+	if !e.start() {
+		return
+	}
+	e.check(chkC08Asap)
+	e.run(chkC08Asap, vhEvents(), n)
+	verifrt.Reach("C08-asap:done")
 	e.finish()
 }
